@@ -108,14 +108,26 @@ Record sstate := mkSt {
 
 Definition visited (st : sstate) (i : N) : bool := existsb (N.eqb i) (st_vis st).
 
-(* the one shape of index assignment (NifFile.cpp:304-305, 459-462, 271-274 / 655-658):
-   if (visited.count(i) == 0) { newIndices[i] = newIndex++; visited.insert(i); } *)
+(* the fused shape of index assignment (SetSortIndices NifFile.cpp:304-305, the completing loops
+   269-272 / 653-656): if (visited.count(i) == 0) { newIndices[i] = newIndex++; visited.insert(i); } *)
 Definition assign (i : N) (st : sstate) : res sstate :=
   if visited st i then Ok st
   else match vset (st_nidx st) i (st_next st) with
        | Some v => Ok (mkSt (i :: st_vis st) v (wrapN 32 (st_next st + 1)) (st_gr st))
        | None => Fault
        end.
+
+(* SortCollision splits it (NifFile.cpp:418-423, 463-465): the parent is inserted into the visited set on
+   entry - bool assignIndex = visitedIndices.insert(parentIndex).second - and only numbered after the
+   blocks that have to come before it: if (assignIndex) newIndices[parentIndex] = newIndex++; *)
+Definition s_mark (i : N) (st : sstate) : sstate :=
+  mkSt (i :: st_vis st) (st_nidx st) (st_next st) (st_gr st).
+
+Definition s_set_index (i : N) (st : sstate) : res sstate :=
+  match vset (st_nidx st) i (st_next st) with
+  | Some v => Ok (mkSt (st_vis st) v (wrapN 32 (st_next st + 1)) (st_gr st))
+  | None => Fault
+  end.
 
 (* root->childRefs = newChildRefs *)
 Definition set_children (i : N) (ch : list N) (st : sstate) : sstate :=
@@ -140,6 +152,14 @@ Fixpoint s_foreach {A} (l : list A) (body : A -> s_act) : s_act :=
   | x :: r => body x ;; s_foreach r body
   end.
 Definition pure_upd (f : sstate -> sstate) : s_act := fun st => Ok (f st).
+
+(* the frame of SortCollision: assignIndex = insert(i).second; pre; l = read; before l;
+   if (assignIndex) number i; after l *)
+Definition s_bracket {A} (i : N) (pre : s_act) (rdf : sstate -> A) (before after : A -> s_act) : s_act :=
+  fun st =>
+    if visited st i
+    then (pre ;; s_rd rdf (fun l => before l ;; after l)) st
+    else (pre ;; s_rd rdf (fun l => before l ;; s_set_index i ;; after l)) (s_mark i st).
 
 (* ---- SortGraph's new child array (NifFile.cpp:512-623) ---- *)
 Definition s_contains (l : list N) (x : N) : bool := existsb (N.eqb x) l.
@@ -273,29 +293,31 @@ Section Run.
                 else s_skip
               | None => s_skip
               end)))
-      | CColl i =>                                            (* NifFile.cpp:418-473 *)
+      | CColl i =>                                            (* NifFile.cpp:418-476 *)
         s_rd (fun st => getb (st_gr st) i) (fun o =>
           match o with
           | None => s_skip
           | Some b =>
-            (if has_kind K_CONSTRAINT b then s_foreach (s_entities b) coll_unvisited else s_skip) ;;
-            (if has_kind K_CHAIN b
-             then s_foreach (s_chained b) coll_unvisited ;; coll_unvisited (s_entA b) ;; coll_unvisited (s_entB b)
-             else s_skip) ;;
-            s_rd (fun st => match getb (st_gr st) i with Some b' => kids b' | None => [] end) (fun l =>
-              s_foreach l (fun id =>
-                s_rd (fun st => (getb (st_gr st) id, visited st id)) (fun p =>
-                  match p with
-                  | (Some cb, false) => if before_parent cb then sort_run f (CColl id) else s_skip
-                  | _ => s_skip
-                  end)) ;;
-              assign i ;;
-              s_foreach l (fun id =>
-                s_rd (fun st => (getb (st_gr st) id, visited st id)) (fun p =>
-                  match p with
-                  | (Some cb, false) => if before_parent cb then s_skip else sort_run f (CColl id)
-                  | _ => s_skip
-                  end)))
+            s_bracket i
+              ((if has_kind K_CONSTRAINT b then s_foreach (s_entities b) coll_unvisited else s_skip) ;;
+               (if has_kind K_CHAIN b
+                then s_foreach (s_chained b) coll_unvisited ;; coll_unvisited (s_entA b) ;; coll_unvisited (s_entB b)
+                else s_skip))
+              (fun st => match getb (st_gr st) i with Some b' => kids b' | None => [] end)
+              (fun l =>
+                s_foreach l (fun id =>
+                  s_rd (fun st => (getb (st_gr st) id, visited st id)) (fun p =>
+                    match p with
+                    | (Some cb, false) => if before_parent cb then sort_run f (CColl id) else s_skip
+                    | _ => s_skip
+                    end)))
+              (fun l =>
+                s_foreach l (fun id =>
+                  s_rd (fun st => (getb (st_gr st) id, visited st id)) (fun p =>
+                    match p with
+                    | (Some cb, false) => if before_parent cb then s_skip else sort_run f (CColl id)
+                    | _ => s_skip
+                    end)))
           end)
       | CShape i =>                                           (* NifFile.cpp:475-500 *)
         s_rd (fun st => getb (st_gr st) i) (fun o =>
